@@ -131,6 +131,11 @@ def unary_ops():
         ('default_to', lambda t: t.default_to(7.), lambda d: d, ANY),
         ('dim_to_dense0', lambda t: t.dim_to_dense(0), lambda d: d, ANY),
         ('dim_to_dense-last', lambda t: t.dim_to_dense(t.ndim - 1), lambda d: d, ANY),
+        ('dim_to_dense-neg', lambda t: t.dim_to_dense(-1), lambda d: d, ANY),
+        ('stack1-0', lambda t: _stack([t], 0), lambda d: torch.stack([d], 0), ANY),
+        ('stack1-neg1', lambda t: _stack([t], -1), lambda d: torch.stack([d], -1), ANY),
+        ('stack1-neg2', lambda t: _stack([t], -2), lambda d: torch.stack([d], -2), ANY),
+        ('project-own-axes-reversed', lambda t: _project_own(t), lambda d: None, ANY),
         ('log_softmax0', lambda t: t.log_softmax(0), lambda d: d.log_softmax(0), finite),
         ('log_softmax-1', lambda t: t.log_softmax(-1), lambda d: d.log_softmax(-1), finite),
         ('tolist', lambda t: torch.tensor(t.tolist(), dtype=torch.float64).reshape(t.size()), lambda d: d, ANY),
@@ -143,6 +148,34 @@ def unary_ops():
         ('equal_default', lambda t: t.equal_default(), lambda d: None, ANY),
     ]
     return ops
+
+
+def _stack(ts, dim):
+    from fggs.indices import stack
+    return stack(ts, dim)
+
+
+def _rev_products(e):
+    from fggs.indices import ProductAxis, SumAxis, productAxis
+    if isinstance(e, ProductAxis) and len(e.factors) >= 2:
+        fs = [_rev_products(f) for f in e.factors]
+        sizes = [f.numel() for f in fs]
+        # only a reversal that keeps the index type (same factor sizes in the same positions) is a well-typed request
+        return productAxis(list(reversed(fs))) if sizes == sizes[::-1] and all(isinstance(f, type(fs[0])) for f in fs) else productAxis(fs)
+    if isinstance(e, SumAxis):
+        return SumAxis(e.before, _rev_products(e.term), e.after)
+    return e
+
+
+def _project_own(t):
+    """project onto t's OWN physical axes arranged differently (product factors reversed); compared with the same
+    view taken from the dense tensor.  Returns a bool tensor so that the generic comparison applies."""
+    import torch
+    from fggs.indices import project
+    vaxes = tuple(_rev_products(e) for e in t.vaxes)
+    got = t.project(t.paxes, vaxes)
+    want = project(t.to_dense(), t.paxes, vaxes, {})[0].clone()
+    return torch.tensor(bool(got.shape == want.shape and torch.equal(got.isnan(), want.isnan()) and torch.equal(got.nan_to_num(nan=0.), want.nan_to_num(nan=0.))))
 
 
 def binary_ops():
@@ -289,7 +322,7 @@ def one_unary(p, d, storage, ops, r, reshape):
                 else:
                     r.ok(key, outcome=name)
                 continue
-            exp = g(dense0)
+            exp = g(dense0) if name != 'project-own-axes-reversed' else torch.tensor(True)
             rd = res.to_dense() if isinstance(res, PatternedTensor) else res
             if not eqn(rd, exp):
                 bad(r, 'mismatch', name, '%s: %s gives %r, torch gives %r' % (desc, name, rd.tolist(), exp.tolist()), sub, key)
